@@ -1,20 +1,298 @@
 package c09
 
 import (
+	"context"
+	"fmt"
 	"go/ast"
 	"go/parser"
 	"go/token"
+	"net"
+	"net/http"
+	"net/http/httptest"
+	"os"
 	"path/filepath"
 	"reflect"
 	"runtime"
+	"strconv"
+	"strings"
+	"sync"
+	"sync/atomic"
+	"time"
 
+	"github.com/caddyserver/caddy/v2"
+	"github.com/caddyserver/caddy/v2/modules/caddyhttp"
 	"github.com/caddyserver/caddy/v2/modules/caddyhttp/reverseproxy"
 
 	"verif/harness/internal/core"
 )
 
+// stressOutcome is the fate of request i of a stress case (same table in Driver.lean).
+func stressOutcome(seed, i int) string {
+	switch ((seed*131 + i*7919 + 12345) % 65536 / 16) % 10 {
+	case 0, 1, 2:
+		return "ok"
+	case 3, 4:
+		return "rst"
+	case 5:
+		return "e5"
+	case 6:
+		return "hup"
+	case 7:
+		return "pan"
+	case 8:
+		return "her"
+	}
+	return "abort"
+}
+
+type stressBackend struct {
+	k *kase
+}
+
+func (b *stressBackend) ServeHTTP(w http.ResponseWriter, r *http.Request) {
+	c := r.Header.Get("X-Out")
+	switch c {
+	case "ok":
+		w.Write([]byte("ok"))
+	case "e5":
+		w.WriteHeader(500)
+		w.Write([]byte("no"))
+	case "pan":
+		w.Header().Set("X-Verif", "panic")
+		w.Write([]byte("ok"))
+	case "her":
+		w.Header().Set("X-Verif", "err")
+		w.Write([]byte("ok"))
+	case "abort":
+		// tell the client side that the request is inside the backend, then wait for it to go away
+		if ch, ok := b.k.arrived.Load(r.Header.Get("X-Rid")); ok {
+			close(ch.(chan struct{}))
+		}
+		select {
+		case <-r.Context().Done():
+		case <-time.After(5 * time.Second):
+		}
+	case "rst", "hup":
+		hj, ok := w.(http.Hijacker)
+		if !ok {
+			return
+		}
+		conn, _, err := hj.Hijack()
+		if err != nil {
+			return
+		}
+		if c == "hup" {
+			conn.Write([]byte("HTTP/1.1 200 OK\r\nContent-Type: text/plain\r\nContent-Length: 1000\r\n\r\npartial"))
+		}
+		conn.Close()
+	}
+}
+
+// runStress: N requests with scripted fates are fired at the real handler from N goroutines at
+// once, with no forced order; half-way a reload that keeps both upstreams is performed
+// concurrently.  What must come out is independent of the interleaving (that is what the
+// theorems say): every increment matched by a decrement on every exit path, exactly the
+// reset / bad-status attempts counted, every counted failure forgotten exactly once after
+// all configurations are unloaded, no counter ever negative.  The answer line carries these
+// totals (the model computes them from a sequential run); the oracle checks them on the event
+// stream of the verif hook.
 func (p *prop) runStress(line string, f []string) core.Outcome {
-	return core.Outcome{Impl: "bad-op", Tags: []string{"bad-op", "trivial"}}
+	bad := core.Outcome{Impl: "bad-op", Tags: []string{"bad-op", "trivial"}}
+	if len(f) != 3 {
+		return bad
+	}
+	N, ok1 := num(f[1])
+	seed, ok2 := num(f[2])
+	if !ok1 || !ok2 || N < 1 || N > 64 {
+		return bad
+	}
+	if err := p.init(); err != nil {
+		return core.Outcome{Impl: "infra", Tags: []string{"infra"}, Failures: []core.Failure{{Class: "harness-infra", What: err.Error()}}}
+	}
+	k := &kase{p: p, K: 2, U: baseTick, ev: make(chan reqEvent, 1), objIdx: map[*reverseproxy.Host]int{}, tags: map[string]bool{}}
+	k.cond = sync.NewCond(&k.mu)
+	k.dir = filepath.Join(p.root, fmt.Sprintf("s%d", p.nextDir.Add(1)))
+	os.MkdirAll(k.dir, 0o755)
+	defer os.RemoveAll(k.dir)
+	var servers []*http.Server
+	for key := 0; key < 2; key++ {
+		l, err := net.Listen("unix", k.sock(key))
+		if err != nil {
+			return core.Outcome{Impl: "infra", Tags: []string{"infra"}, Failures: []core.Failure{{Class: "harness-infra", What: err.Error()}}}
+		}
+		srv := &http.Server{Handler: &stressBackend{k: k}}
+		servers = append(servers, srv)
+		go srv.Serve(l)
+	}
+	defer func() {
+		for _, s := range servers {
+			s.Close()
+		}
+		k.mu.Lock()
+		for _, h := range k.objs {
+			hostReg.Delete(h)
+		}
+		k.mu.Unlock()
+	}()
+	// both configurations: upstreams 0 and 1, round robin, passive checks with a long window,
+	// max_fails high enough that nobody becomes unhealthy, one unhealthy_status entry
+	mk := func() *cfgGen {
+		st := step{keys: []int{0, 1}, p: true, d: longD, m: 100, s: 1}
+		ctx, cancel := caddy.NewContext(p.base)
+		js := k.handlerJSON(st, false)
+		js = []byte(strings.Replace(string(js), `"policy":"first"`, `"policy":"round_robin"`, 1))
+		mod, err := ctx.LoadModuleByID("http.handlers.reverse_proxy", js)
+		if err != nil {
+			cancel()
+			k.infra = err.Error()
+			return nil
+		}
+		c := &cfgGen{id: len(k.cfgs), st: st, h: mod.(*reverseproxy.Handler), cancel: cancel, maxFails: 100}
+		k.mu.Lock()
+		for _, u := range c.h.Upstreams {
+			idx, ok := k.objIdx[u.Host]
+			if !ok {
+				idx = len(k.objs)
+				k.objs = append(k.objs, u.Host)
+				k.objIdx[u.Host] = idx
+				k.forgetsSeen = append(k.forgetsSeen, 0)
+				k.dueTotal = append(k.dueTotal, 0)
+				hostReg.Store(u.Host, k)
+			}
+			c.objs = append(c.objs, idx)
+		}
+		k.mu.Unlock()
+		k.cfgs = append(k.cfgs, c)
+		return c
+	}
+	first := mk()
+	if first == nil {
+		return core.Outcome{Impl: "infra", Tags: []string{"infra"}, Failures: []core.Failure{{Class: "harness-infra", What: k.infra}}}
+	}
+	var cur atomic.Pointer[cfgGen]
+	cur.Store(first)
+	var wg sync.WaitGroup
+	start := make(chan struct{})
+	results := make([]string, N)
+	for i := 0; i < N; i++ {
+		wg.Add(1)
+		go func(i int) {
+			defer wg.Done()
+			out := stressOutcome(seed, i)
+			ctx, cancel := context.WithCancel(context.Background())
+			defer cancel()
+			req := httptest.NewRequest("POST", "http://c09.test/s", nil).WithContext(ctx)
+			req.Header.Set("X-Rid", strconv.Itoa(i))
+			req.Header.Set("X-Out", out)
+			w := httptest.NewRecorder()
+			req = caddyhttp.PrepareRequest(req, caddy.NewReplacer(), w, &caddyhttp.Server{})
+			if out == "abort" {
+				ch := make(chan struct{})
+				k.arrived.Store(strconv.Itoa(i), ch)
+				go func() {
+					select {
+					case <-ch:
+					case <-time.After(5 * time.Second):
+					}
+					cancel()
+				}()
+			}
+			<-start
+			if i == N/2 {
+				// a reload that keeps both upstreams, concurrent with the traffic
+				if nc := mk(); nc != nil {
+					old := cur.Swap(nc)
+					old.canceled = true
+					old.cancel()
+				}
+			}
+			res := "ok"
+			func() {
+				defer func() {
+					if rec := recover(); rec != nil {
+						res = "panic"
+					}
+				}()
+				h := cur.Load().h
+				if err := h.ServeHTTP(w, req, caddyhttp.HandlerFunc(func(http.ResponseWriter, *http.Request) error { return nil })); err != nil {
+					res = "err"
+				}
+			}()
+			results[i] = res
+		}(i)
+	}
+	close(start)
+	done := make(chan struct{})
+	go func() { wg.Wait(); close(done) }()
+	select {
+	case <-done:
+	case <-time.After(20 * time.Second):
+		return core.Outcome{Impl: "hang", Tags: []string{"stress"}, Failures: []core.Failure{{Class: "harness-infra", What: "stress requests did not return"}}}
+	}
+	// traffic has stopped: in-flight must be zero right now
+	inflightEnd := 0
+	for _, h := range k.objs {
+		inflightEnd += h.NumRequests()
+	}
+	// unload everything; every counted failure must be forgotten exactly once
+	c := cur.Load()
+	c.canceled = true
+	c.cancel()
+	deadline := time.Now().Add(5 * time.Second)
+	for {
+		k.mu.Lock()
+		ok := k.tally[3] >= k.tally[2]
+		k.mu.Unlock()
+		if ok || time.Now().After(deadline) {
+			break
+		}
+		time.Sleep(200 * time.Microsecond)
+	}
+	time.Sleep(500 * time.Microsecond)
+	failsEnd := 0
+	for _, h := range k.objs {
+		failsEnd += h.Fails()
+	}
+	k.mu.Lock()
+	t := k.tally
+	neg := append([]string(nil), k.negative...)
+	maxIn := k.maxInflight
+	k.mu.Unlock()
+	nOK, nErr, nPanic := 0, 0, 0
+	for _, r := range results {
+		switch r {
+		case "ok":
+			nOK++
+		case "err":
+			nErr++
+		default:
+			nPanic++
+		}
+	}
+	impl := fmt.Sprintf("n=%d ok=%d err=%d panic=%d inc=%d dec=%d fail=%d forget=%d end=%d/%d", N, nOK, nErr, nPanic, t[0], t[1], t[2], t[3], inflightEnd, failsEnd)
+	o := core.Outcome{Impl: impl, Tags: []string{"stress"}}
+	if len(neg) > 0 {
+		o.Failures = append(o.Failures, core.Failure{Class: "negative-counter", What: "a Host counter went below zero under concurrency: " + neg[0]})
+	}
+	if inflightEnd != 0 || t[0] != t[1] {
+		o.Failures = append(o.Failures, core.Failure{Class: "inflight-unbalanced-under-concurrency", What: fmt.Sprintf("traffic stopped: in-flight sum %d, %d increments, %d decrements", inflightEnd, t[0], t[1])})
+	}
+	if failsEnd != 0 || t[2] != t[3] {
+		o.Failures = append(o.Failures, core.Failure{Class: "fails-unbalanced-under-concurrency", What: fmt.Sprintf("all configurations unloaded: fails sum %d, %d failures counted, %d forgotten", failsEnd, t[2], t[3])})
+	}
+	if maxIn > int64(N) {
+		o.Failures = append(o.Failures, core.Failure{Class: "inflight-exceeds-requests", What: fmt.Sprintf("in-flight count reached %d with only %d requests", maxIn, N)})
+	}
+	want := 0
+	for i := 0; i < N; i++ {
+		if x := stressOutcome(seed, i); x == "rst" || x == "e5" {
+			want++
+		}
+	}
+	if t[2] != want {
+		o.Failures = append(o.Failures, core.Failure{Class: "wrong-outcomes-counted-under-concurrency", What: fmt.Sprintf("%d failures counted, but %d attempts ended in an upstream error or a bad status (success, client abort, handler error and panics must not count)", t[2], want)})
+	}
+	return o
 }
 
 // callText renders x.y.z(…lit…) call expressions of the two statements we look for.
